@@ -2006,6 +2006,32 @@ fn dot_ref(seed: u64) -> serde_json::Value {
     json!({"found": false, "routine": "dot_ref", "tried": tried})
 }
 
+// C09: evaluation of graphs whose OUTPUT node has later consumers, whose nodes are consumed several times, never at all, or through Call / Iterate: a value or an error, never a panic
+fn eval_release(seed: u64) -> serde_json::Value {
+    use ciphercore_base::graphs::Node;
+    type B = Box<dyn Fn(&ciphercore_base::graphs::Context) -> Result<Graph>>;
+    let t = scalar_type(INT32);
+    let cases: Vec<(&str, B, Vec<i64>, i64)> = vec![
+        ("the output node x+y is used again by a later node", Box::new({ let t = t.clone(); move |c| { let g = c.create_graph()?; let x = g.input(t.clone())?; let y = g.input(t.clone())?; let o = x.add(y.clone())?; let _later = o.multiply(y)?; o.set_as_output()?; g.finalize() } }), vec![3, 4], 7),
+        ("the output node is an input that later nodes consume", Box::new({ let t = t.clone(); move |c| { let g = c.create_graph()?; let x = g.input(t.clone())?; let y = g.input(t.clone())?; let s = x.add(y)?; let _p = s.multiply(x.clone())?; x.set_as_output()?; g.finalize() } }), vec![5, 6], 5),
+        ("a node consumed three times, one never consumed", Box::new({ let t = t.clone(); move |c| { let g = c.create_graph()?; let x = g.input(t.clone())?; let y = g.input(t.clone())?; let _unused = y.add(y.clone())?; let a = x.add(x.clone())?; let b = a.add(x.clone())?; b.set_as_output()?; g.finalize() } }), vec![2, 9], 6),
+        ("a called graph whose output node has a later consumer", Box::new({ let t = t.clone(); move |c| { let h = c.create_graph()?; let u = h.input(t.clone())?; let o = u.add(u.clone())?; let _later = o.multiply(u)?; o.set_as_output()?; h.finalize()?;
+            let g = c.create_graph()?; let x = g.input(t.clone())?; let y = g.input(t.clone())?; let r = g.call(h, vec![x])?; let z = r.add(y)?; z.set_as_output()?; g.finalize() } }), vec![10, 1], 21),
+    ];
+    let _ = seed; let mut tried = 0;
+    for (what, build, ins, want) in cases {
+        tried += 1;
+        let r = catch_unwind(AssertUnwindSafe(|| -> Result<i64> {
+            let c = create_context()?; let g = build(&c)?; g.set_as_main()?; c.finalize()?;
+            let vals: Vec<Value> = ins.iter().map(|&v| Value::from_scalar(v, INT32).unwrap()).collect();
+            let out = random_evaluate(g, vals)?; Ok(out.to_i64(INT32)?)
+        }));
+        let obs = match r { Ok(Ok(v)) if v == want => continue, Ok(Ok(v)) => format!("{}", v), Ok(Err(e)) => format!("Err({})", e), Err(_) => "panic".to_owned() };
+        return json!({"found": true, "routine": "eval_release", "property": "C09", "input": {"graph": what, "inputs": ins}, "expected": want, "observed": obs, "what": "Evaluator::evaluate_graph (release of intermediate values) on a well-typed graph"});
+    }
+    json!({"found": false, "routine": "eval_release", "tried": tried})
+}
+
 fn main() {
     let args: Vec<String> = std::env::args().collect();
     let seed: u64 = args.get(2).and_then(|s| s.parse().ok()).unwrap_or(0);
@@ -2026,6 +2052,7 @@ fn main() {
         Some("share_roundtrip") => share_roundtrip(seed),
         Some("prng_stream") => prng_stream(seed),
         Some("layout_ref") => layout_ref(seed),
+        Some("eval_release") => eval_release(seed),
         Some("dot_ref") => dot_ref(seed),
         Some("segcs_overflow") => segcs_overflow(),
         Some("ctx_corrupt_sweep") => ctx_corrupt_sweep(seed),
